@@ -66,6 +66,9 @@ extern "C" time_t time(time_t *t) {
   if (t) *t = r;
   return r;
 }
+// watchdog: a hang inside the code under test (e.g. an alarm re-arming itself with a zero delay inside the loop) becomes a violation
+static void on_watchdog(int) { hx::emit_crash("hang-watchdog"); _exit(0); }
+static void watchdog(unsigned sec) { signal(SIGALRM, on_watchdog); ::alarm(sec); }
 static double real_now_s() { struct timespec ts; syscall(SYS_clock_gettime, CLOCK_MONOTONIC, &ts); return ts.tv_sec + ts.tv_nsec * 1e-9; }
 struct Virt { bool old; Virt() : old(g_virt) { g_virt = true; } ~Virt() { g_virt = old; } };
 
@@ -136,7 +139,8 @@ static std::string mask_str(int mask) { std::string s; for (int i = 0; i < 7; i+
 struct Sweep {
   const char *name; uint64_t evals = 0, skipped = 0, viols = 0, notfound = 0; double deadline; bool capped = false; int samples = 0;
   std::map<std::string, uint64_t> sigs; std::map<std::string, uint64_t> outcomes;
-  explicit Sweep(const char *n) : name(n) { const char *e = getenv("VERIF_DEADLINE_S"); deadline = real_now_s() + (e ? atof(e) : 600); }
+  explicit Sweep(const char *n) : name(n) { const char *e = getenv("VERIF_DEADLINE_S"); double d = e ? atof(e) : 600; deadline = real_now_s() + d;
+    strncpy(hx::g_cur_tag, "C20-sweep", sizeof hx::g_cur_tag - 1); hx::set_current(std::string(n) + " (input sweep)"); watchdog((unsigned)d + 120); }
   void viol(const std::string &sig, const std::string &replay) { viols++; uint64_t &n = sigs[sig]; if (++n <= 3) { printf("@VIOL sig=%s :: %s\n", sig.c_str(), replay.c_str()); fflush(stdout); } }
   void sample(const std::string &s) { if (samples++ < 2) printf("@SAMPLE %s: %s\n", name, s.c_str()); }
   bool expired() { if (!capped && real_now_s() > deadline) { capped = true; printf("@CAP %s: deadline reached after %" PRIu64 " evaluations\n", name, evals); } return capped; }
@@ -177,7 +181,7 @@ static Armed arm_at(Alarm &a, event::Loop *loop, int64_t now_ms, int tz_min, uin
   if (a.isEnabled()) a.refresh(); else { a.target_utc_sec_ = 0; a.enable(); }   // fresh arming: no previous target (refresh() clears it itself)
   Armed r; r.ok = a.isEnabled(); r.target = a.target_utc_sec_; r.remain = a.remainSeconds();
   r.delay_ms = static_cast<event::TimerEventImpl *>(a.sp_timer_ev_)->interval_.count();
-  if (++since_pass >= 200) { since_pass = 0; loop->runNext([] {}); loop->runLoop(event::Loop::Mode::kOnce); }   // drain the deferred timer frees
+  if (++since_pass >= 200) { since_pass = 0; if (a.isEnabled()) a.disable(); loop->runNext([] {}); loop->runLoop(event::Loop::Mode::kOnce); }   // drain the deferred timer frees (alarm disarmed: no callback can run here)
   return r;
 }
 static void judge_delay(Sweep &sw, const char *kind, const Armed &r, int64_t now_ms, const std::string &input) {
@@ -533,7 +537,10 @@ static int fire(const std::string &cfgname, size_t depth) {
     auto *tev = static_cast<event::TimerEventImpl *>(a.sp_timer_ev_);
     auto *cl = static_cast<event::CommonLoop *>(loop);
     std::vector<Fire> fires;
-    a.setCallback([&] { fires.push_back(Fire{g_wall_ms, a.target_utc_sec_, tev->interval_.count(), tev->is_enabled_, a.isEnabled()}); });
+    bool storm = false;
+    a.setCallback([&] { fires.push_back(Fire{g_wall_ms, a.target_utc_sec_, tev->interval_.count(), tev->is_enabled_, a.isEnabled()});
+                        if (fires.size() >= 16) { storm = true; a.disable(); } });   // re-arming with a zero delay would never leave the loop pass
+    watchdog(30);
     if (!init_ok) viol = "alarm-initialize-rejected";
     // ---- reference model (property level)
     bool m_enabled = false, m_synced = false; int64_t m_last_fired = -1, m_pending = -1; std::set<int64_t> m_fired; int m_fires_since_enable = 0, m_skew_ms = 0;
@@ -576,6 +583,7 @@ static int fire(const std::string &cfgname, size_t depth) {
         case PASS: {
           fires.clear();
           loop->runNext([] {}); loop->runLoop(event::Loop::Mode::kOnce);
+          if (storm) { viol = fmt("alarm-callback-storm-in-one-pass %zu callbacks at wall_ms=%" PRId64 " without the clock moving (re-armed with delay %" PRId64 " ms for target=%u)", fires.size(), g_wall_ms, fires[1].delay_ms, fires[1].target); break; }
           for (auto &f : fires) {
             total_fires++;
             if (!m_enabled) { viol = fmt("alarm-fired-while-disabled at wall_ms=%" PRId64, f.wall_ms); break; }
@@ -609,7 +617,7 @@ static int fire(const std::string &cfgname, size_t depth) {
     if (viol.empty()) { std::string o = fmt("callbacks=%zu enabled=%d synced=%d", m_fired.size(), (int)m_enabled, (int)m_synced); outcomes[o]++; }
     if (a.isEnabled()) a.disable();
     loop->runNext([] {}); loop->runLoop(event::Loop::Mode::kOnce);
-    ap.reset(); delete loop;
+    ap.reset(); delete loop; ::alarm(0);
     return canon;
   };
   ex.explore(depth);
